@@ -118,7 +118,7 @@ def _nonempty_lines(path):
         return [l.rstrip("\n") for l in fh if l.strip()]
 
 
-def run_impl(binary, casefile, timeout=600, env=None, args=()):
+def run_impl(binary, casefile, timeout=2400, env=None, args=()):
     """Runs the harness over the case file.  A case on which the process aborts
     (assert, sanitizer, signal) yields the line 'ABORT: <reason>' and the run
     resumes with the next case."""
